@@ -119,7 +119,7 @@ def unit(u) -> Stats:
         # recording run
         rec = os.path.join(base, "rec")
         shutil.copytree(oldroot, rec)
-        ctl = crashfs.Controller("record", root=rec)
+        ctl = crashfs.Controller("record", root=None)
         how = run_save(rec, new_kind, ctl)
         if how != "completed":
             st.violation(f"[save n_prev={n_prev} {new_kind}] the fault-free save did not complete: {how}", fault="none", **doc)
@@ -140,7 +140,7 @@ def unit(u) -> Stats:
                 return
             d = os.path.join(base, f"f{counter[0]}")
             shutil.copytree(oldroot, d)
-            c = mk_ctl(d) if mk_ctl else crashfs.Controller("record", root=d)
+            c = mk_ctl(None) if mk_ctl else crashfs.Controller("record", root=None)
             how = run_save(d, new_kind, c, tracer)
             st.transitions += 1
             st.evals += 1
@@ -157,7 +157,7 @@ def unit(u) -> Stats:
                 pid = os.fork()
                 if pid == 0:
                     try:
-                        run_save(d2, new_kind, crashfs.Controller("realkill", real_kill_at, root=d2))
+                        run_save(d2, new_kind, crashfs.Controller("realkill", real_kill_at, root=None))
                     finally:
                         os._exit(0)
                 os.waitpid(pid, 0)
@@ -189,7 +189,8 @@ def unit(u) -> Stats:
                         return st
         elif part == "fail":
             for i, op in enumerate(ops):
-                for e in (errno.ENOSPC, errno.EIO):
+                errs = (errno.ENOSPC, errno.EIO) + ((errno.EXDEV,) if op[0] in ("REPLACE", "RENAME", "LINK") else ())
+                for e in errs:
                     attempt(f"fail({i},{errno.errorcode[e]}) at {op[0]}", lambda d, i=i, e=e: crashfs.Controller("fail", i, err=e, root=d))
                     if st.nviol >= 3:
                         return st
@@ -197,22 +198,24 @@ def unit(u) -> Stats:
             # fault sequences of length 2: an I/O error the program survives, followed by process death at any later operation
             # (explores error-handling / fallback paths the single faults never reach)
             for i, op in enumerate(ops):
-                d0 = os.path.join(base, f"p{i}")
-                shutil.copytree(oldroot, d0)
-                c0 = crashfs.Controller("fail", i, err=errno.ENOSPC, root=d0)
-                run_save(d0, new_kind, c0)
-                n_after = len(c0.ops)
-                shutil.rmtree(d0, ignore_errors=True)
-                for j in range(i + 1, n_after + 1):
-                    attempt(f"fail({i},ENOSPC) at {op[0]} then kill({j})",
-                            lambda d, i=i, j=j: crashfs.Controller("fail", i, err=errno.ENOSPC, root=d, then_kill_at=j))
-                    if st.nviol >= 3:
-                        return st
+                # a rename that fails with EXDEV models "temporary file on another filesystem" (a move then degrades to a copy)
+                for e in (errno.ENOSPC,) + ((errno.EXDEV,) if op[0] in ("REPLACE", "RENAME", "LINK") else ()):
+                    d0 = os.path.join(base, f"p{i}-{e}")
+                    shutil.copytree(oldroot, d0)
+                    c0 = crashfs.Controller("fail", i, err=e, root=None)
+                    run_save(d0, new_kind, c0)
+                    n_after = len(c0.ops)
+                    shutil.rmtree(d0, ignore_errors=True)
+                    for j in range(i + 1, n_after + 1):
+                        attempt(f"fail({i},{errno.errorcode[e]}) at {op[0]} then kill({j})",
+                                lambda d, i=i, j=j, e=e: crashfs.Controller("fail", i, err=e, root=d, then_kill_at=j))
+                        if st.nviol >= 3:
+                            return st
         elif part == "interrupt":
             probe = LineInterrupter(-1)
             d = os.path.join(base, "probe")
             shutil.copytree(oldroot, d)
-            run_save(d, new_kind, crashfs.Controller("record", root=d), probe)
+            run_save(d, new_kind, crashfs.Controller("record", root=None), probe)
             total = probe.count
             if shard_k == 0:
                 st.count(f"traced_lines[{n_prev},{new_kind}]", total)
